@@ -45,7 +45,9 @@ func (c *Ctx) EnableTokenSymbolisation(placeholders map[string]Value, re *regexp
 				}
 			case "RAWSTRING":
 			default:
-				if r, ok := c.Placeholders[lit]; ok {
+				if tr, ok := c.TypePlaceholders[lit]; ok {
+					out[TokType], out[TokLiteral] = tr[0], tr[1]
+				} else if r, ok := c.Placeholders[lit]; ok {
 					out[TokLiteral] = r
 				}
 			}
